@@ -5,10 +5,29 @@ from .. import core
 NK = 6  # exception kinds used by harness/h_exn.c
 
 def gen_filter(rng):
-    """a filter *set* of arity 0..4: duplicate-free on purpose — a filter that lists an object twice is known finding
-    KF-C07-filter-dup (exception_catch never returns on a non-matching exception); its witness is corpus/kf_c07_filter_dup.ops"""
+    """a filter *list* of arity 0..4. About a quarter of the filters of arity >= 2 name an object more than once (since
+    fix a0ef2da exception_catch walks the filter by index: repeats terminate and match by membership; before it such a
+    filter made exception_catch loop for ever — regression inputs corpus/exn_fixed_filter_dup.ops)"""
     k = rng.choice([0, 0, 1, 1, 2, 3, 4])
+    if k >= 2 and rng.random() < 0.25:
+        pool = rng.sample(range(NK), rng.randrange(1, k))          # fewer distinct objects than positions
+        f = pool + [rng.choice(pool) for _ in range(k - len(pool))]
+        rng.shuffle(f)
+        return ' '.join(map(str, f))
     return ' '.join(map(str, rng.sample(range(NK), k)))
+
+def gen_dup_case(rng):
+    """a block whose filter repeats objects, asked about an exception it lists first / after the repeat / not at all, inside
+    an enclosing block that does or does not list it; thrower inline, in a callee, or a rethrowing inner handler"""
+    k = rng.randrange(2, 5)
+    pool = rng.sample(range(NK), rng.randrange(1, k))
+    f = pool + [rng.choice(pool) for _ in range(k - len(pool))]
+    rng.shuffle(f)
+    e = rng.choice(f + [x for x in range(NK) if x not in f]) if rng.random() < 0.6 else rng.choice([x for x in range(NK) if x not in f])
+    thrower = rng.choice([f'(t {e})', f'(f (t {e}))', f'(d {rng.choice([1, 7, 30])} (t {e}))', f'(c (t {e}) ({e} {e}) (q (s 4) (r)))'])
+    inner = f"(c (q (s 1) {thrower}) ({' '.join(map(str, f))}) {rng.choice(['(s 2)', '(q (s 2) (r))', f'(t {rng.randrange(NK)})'])})"
+    outer_f = rng.choice(['', f'{e}', f'{e} {e}', f'{(e + 1) % NK} {(e + 1) % NK}', f'{(e + 1) % NK} {e} {(e + 1) % NK}'])
+    return f'(c (q {inner} (s 5)) ({outer_f}) (s 6))'
 
 def gen_prog(rng, depth, size, in_handler=False):
     """random program tree; returns sexp. Inside the object domain: no throw(NULL), no malformed message."""
@@ -52,7 +71,7 @@ def gen_reentry(rng):
     inner = wrap.format(f'(c {inner_body} ({f2}) (s 2))')
     return f'(c (q {inner} (t {rng.randrange(NK)})) ({f1}) (q (s 3) (r)))'
 
-def enum_progs(nodes, kinds=(0, 1), filters=((), (0,), (1,), (0, 1)), rethrow=True):
+def enum_progs(nodes, kinds=(0, 1), filters=((), (0,), (1,), (0, 1), (0, 0)), rethrow=True):
     """every program tree with exactly `nodes` constructor nodes over the given kinds/filters (statements share tag by position)"""
     memo = {}
     def go(n):
@@ -84,26 +103,31 @@ class C07(Spec):
     generators = ('Exn',)
     technique = 'Lean 4 proof by structural induction: machine model of the macros refines structured-exception semantics; source-derived parameters regenerated each run; differential check against the real macros'
     level_text = ('Theorem C07_machine_refines_reference: for every program tree inside the stated domain (non-NULL exception objects with '
-                  'well-formed messages, duplicate-free catch filters, nesting within EXCEPTION_MAX_DEPTH), every bound variable and start state, '
-                  'the model of try/catch/throw (depth, active flag, jump-buffer indices, the filter walk of exception_catch over the Tuple) produces '
+                  'well-formed messages, arbitrary catch filters — an object may be listed any number of times —, nesting within EXCEPTION_MAX_DEPTH), '
+                  'every bound variable and start state, '
+                  'the model of try/catch/throw (depth, active flag, jump-buffer indices, the filter walk of exception_catch by index) produces '
                   'exactly the trace of a structured-exception reference semantics — throws from bodies, callees and handlers, rethrow of the bound '
                   'object — restores the depth, never aborts, hangs or jumps to a dead buffer; C07_no_undefined_jump and C07_overflow_aborts cover '
                   'every program without those hypotheses; histories by C07_sequence_history. Outside the domain the model mirrors the code and the '
-                  '…_refuted theorems exhibit the departure (repeated filter object: hang; throw(NULL): handler skipped; malformed message: FormatError '
-                  'bound). The parameters that a source change can flip (does exception_catch consume; EXCEPTION_MAX_DEPTH; the macro texts; statement '
-                  'order in exception_throw; the filter loop; Tuple_Iter_Next) are regenerated from /repo on every run and the theorems re-checked '
+                  '…_refuted theorems exhibit the departure (throw(NULL): handler skipped; malformed message: FormatError bound). The behaviour of the '
+                  'code before fix a0ef2da (foreach walk: a repeated filter object makes exception_catch hang) is kept as an explicit OLD machine and '
+                  'refuted on its witness (C07_foreach_walk_refuted / _hangs). '
+                  'The parameters that a source change can flip (does exception_catch consume; EXCEPTION_MAX_DEPTH; the macro texts; statement '
+                  'order in exception_throw; the filter loop — by index or foreach; Tuple_Get/Tuple_Len) are regenerated from /repo on every run and the theorems re-checked '
                   'against them; the machine model is tied to the real macros by running thousands of program trees on both.')
     level_note = ('Trusted: Lean kernel; axioms propext/Quot.sound/Classical.choice at most; the regex translator for Exception.c/Tuple.c/Cello.h; the '
                   'harness/driver comparison (testing); setjmp/longjmp and process exit status are modelled. Not covered: signals-to-exceptions, stack '
                   'traces, the text of the diagnostic beyond "Uncaught", other threads (C13), exception objects on a dead stack frame.')
-    rule = ('program trees: (a) exhaustive enumeration of all trees with up to N constructor nodes over 2 exception kinds, rethrow and 4 filter '
-            'sets, (b) random trees (depth<=6, size<=40, 6 kinds, filter arity 0-4, calls, callees at dynamic depth up to 150 frames, rethrow), '
+    rule = ('program trees: (a) exhaustive enumeration of all trees with up to N constructor nodes over 2 exception kinds, rethrow and 5 filter '
+            'lists (one with a repeated object), (b) random trees (depth<=6, size<=40, 6 kinds, filter arity 0-4 with repeated objects in about a '
+            'quarter of the filters of arity >= 2, calls, callees at dynamic depth up to 150 frames, rethrow), '
             '(c) lexically nested 3-level blocks inside one C function for every throw/filter choice sampled, (d) dynamic nesting to depth '
             '200/2000 plus corpus: exactly EXCEPTION_MAX_DEPTH and one more (abort), (e) chains of handlers that throw/rethrow into the enclosing '
-            'block, (f) one try site re-entered recursively. Each runs on the real macros in a forked child under alarm(); trace, end state and '
+            'block, (f) one try site re-entered recursively, (g) blocks whose filter repeats objects, asked about an exception listed before / after '
+            'the repeat / not at all. Each runs on the real macros in a forked child under alarm(); trace, end state and '
             'depth are compared with the Lean machine and with an independent reference interpreter in C. non-trivial = the trace contains at least '
             'one handler event or the program ends fatal/abort/hang; distinct = distinct program text.')
-    trusted_base = ('translate/gen.py generator Exn (regex over src/Exception.c, src/Tuple.c Tuple_Iter_Next and the try / catch_in / throw macros)',
+    trusted_base = ('translate/gen.py generator Exn (regex over src/Exception.c, src/Tuple.c Tuple_Get / Tuple_Len / Tuple_Iter_Next and the try / catch_in / throw macros)',
                     'harness/h_exn.c + lean/Driver/Exn.lean (correspondence is testing)',
                     'setjmp/longjmp, fork/exit status/alarm (libc) are modelled, not verified')
     assumptions = ('single thread; no return/goto out of a try body (documented misuse)',
@@ -112,8 +136,8 @@ class C07(Spec):
                    'that outlive the jump, compared by eq = identity, which cannot raise; the message format has enough arguments. Outside it (corpus/exn_domain.ops, modelled, not judged '
                    'by the direct oracle): throw(NULL) is consumed by a catch-all without running the handler, eq(arg, NULL) raises ValueError inside exception_catch; a message with too few '
                    'arguments makes exception_throw raise FormatError in place of the named object (mechanism of KF-C08-terminal-message)',
-                   'catch filters list pairwise distinct objects (hypothesis nodupFilters); generated filters are sets; a repeated object is known finding KF-C07-filter-dup '
-                   '(witness corpus/kf_c07_filter_dup.ops, model outcome `hang`, theorems C07_duplicate_filter_refuted / C07_duplicate_filter_hangs)')
+                   'catch filters are arbitrary lists of such objects (no distinctness hypothesis since fix a0ef2da; generated filters repeat objects; '
+                   'regression inputs corpus/exn_fixed_filter_dup.ops; the old behaviour is the model runOld, theorems C07_foreach_walk_refuted / C07_foreach_walk_hangs)')
     def cases(self, rng, tier, boost=1):
         cs = []
         quick = tier == 'quick'
@@ -158,6 +182,12 @@ class C07(Spec):
             re_.append('P ' + gen_reentry(rng))
         for i in range(0, len(re_), 500):
             cs.append(Case(f'reentry{i//500}', re_[i:i+500]))
+        # (g) filters that name an object several times (the territory of the former finding KF-C07-filter-dup)
+        du = []
+        for i in range((300 if quick else 6000) * boost):
+            du.append('P ' + gen_dup_case(rng))
+        for i in range(0, len(du), 500):
+            cs.append(Case(f'dupfilter{i//500}', du[i:i+500]))
         return cs
     def nontrivial_items(self, case, c_out, m_out):
         ops = [l for l in case.lines if l and not l.startswith('#')]
@@ -174,10 +204,12 @@ class C07(Spec):
                 if '(r)' in l: acc['with_rethrow'] = acc.get('with_rethrow', 0) + 1
                 if '(d ' in l: acc['with_deep_call'] = acc.get('with_deep_call', 0) + 1
                 if '(n)' in l or '(m ' in l: acc['out_of_domain'] = acc.get('out_of_domain', 0) + 1
+        for l in m_out.split('\n'):
+            if l.startswith('R ') and 'nodup=false' in l: acc['with_repeated_filter_object'] = acc.get('with_repeated_filter_object', 0) + 1
     def model_selfcheck(self, case, m_out):
         ls = m_out.split('\n')
         for i in range(len(ls) - 1):
-            # only where the hypotheses of C07_current_source hold (inDomain, nodupFilters, nesting fits): hyp=true
+            # only where the hypotheses of C07_current_source hold (inDomain, nesting fits): hyp=true
             if ls[i].startswith('O ') and ls[i+1].startswith('R ') and 'hyp=true' in ls[i+1]:
                 ot = ls[i].split('trace=')[1].split(' end=')[0]; rt = ls[i+1].split('trace=')[1].split(' exc=')[0]
                 oend = ls[i].split('end=')[1].split()[0]; rexc = ls[i+1].split('exc=')[1].split()[0]
